@@ -106,7 +106,8 @@ Print Assumptions C03_attr_parse_roundtrip_partial.
 (* ---------------------------------------------------------------------------------------------------
    CHARACTER LEVEL (proofs/AttrText*.v).  The written grammar, as data:
      selem  = name + list of parts + optionally a text `{T}` + optionally the self-closing mark `/`;
-     part   = `#v` | `.v` | `[a1 a2 ... an]` (single spaces between);
+     part   = `#v` | `.v` (the operator may be repeated: `..v` is a "multiple" mention, looked up as `class*`
+              in markup.attributes) | `[a1 a2 ... an]` (single spaces between);
      sattr  = optional `!` (implied) + name + optional `.` (boolean) + value;
      value  = nothing | `=` | `=v` | `='q'` / `="q"` | `={e}`.
    Alphabets ([selem_ok]): element name and shorthand values are non-empty runs of name characters
@@ -118,7 +119,7 @@ Print Assumptions C03_attr_parse_roundtrip_partial.
    operators, the other quote, white space, line breaks free); an expression value is any text whose
    braces balance modulo escapes and whose `$` are escaped ([bal 0]); the text `{T}` likewise (C04).
    [elem_text e] is the text, [written_mentions e] the list of mentions it denotes (SPEC, AttrTextConvert):
-   `#v` -> id=v raw, `.v` -> class=v raw, n -> no value, n= -> no value, n=v -> [v] raw,
+   `#v` -> id=v raw, `.v` -> class=v raw (multiple when the operator is repeated), n -> no value, n= -> no value, n=v -> [v] raw,
    n='q' -> [unescape q] single (n="q" double; nothing for an empty q), n={e} -> [unescape e] expression,
    flags boolean / implied as written. *)
 
@@ -138,7 +139,7 @@ Print Assumptions C03_element_tokens_text.
    Outside the stated grammar, hence not covered by this theorem (covered by the correspondence and the
    oracle of harness/props/c03.py): `$` numbering / `${..}` fields in names and values, a backslash
    outside quotes and braces, separators other than one space, bare quoted attributes `["x"]`, empty
-   shorthands (`a.`), doubled shorthands (`..x`), the jsx shorthand `.{e}`. *)
+   shorthands (`a.`), the jsx shorthand `.{e}`. *)
 Theorem C03_element_attributes_text :
   forall (jsx : bool) (env : cenv) (max_repeat : option N) (e : selem),
     selem_ok e -> jsx_ok jsx e -> ce_text env = WNone ->
@@ -295,10 +296,10 @@ Example C03_expand_nonvacuous :
                (mkOconfig (mkOfmt [] [] []) [] [] (S "double") true false [] [] 0 false [] (S "html") [] false [] [] []
                           false None None) in
   let e := mkSElem (S "a")
-             [PClass (S "x");
+             [PClass 0 (S "x");
               PSet [mkSAttr false (S "b") false (SUnq (S "f(1)")); mkSAttr false (S "c") true SNone;
                     mkSAttr true (S "d") false SNone; mkSAttr false (S "class") false (SQuo true (S "y z"))];
-              PId (S "i")] (Some (S "5 > 3 \{ok\}")) false in
+              PId 0 (S "i")] (Some (S "5 > 3 \{ok\}")) false in
   selem_ok e /\ html_family (mc_syntax (xc_m x)) /\
   Forall (fun a => form_nl_free (attr_out_spec (xc_o x) a)) (merge_spec false [] (written_mentions e)) /\
   value_inline (xc_o x) (elem_text_value e) /\
@@ -310,16 +311,16 @@ Proof.
   split; vm_compute; reflexivity.
 Qed.
 
-(* non-vacuity of the character-level theorems: a#x.y[!p. q= r=a*3/4>.# f=g(1) s='a \' ] (c)' t={ x{y} }].z *)
+(* non-vacuity of the character-level theorems: a#x.y[!p. q= r=a*3/4>.# f=g(1) s.='a \' ] (c)' t={ x{y} }]..z *)
 Example C03_text_nonvacuous :
   let e := mkSElem (S "a")
-             [PId (S "x"); PClass (S "y");
+             [PId 0 (S "x"); PClass 0 (S "y");
               PSet [mkSAttr true (S "p") true SNone; mkSAttr false (S "q") false SEmpty;
                     mkSAttr false (S "r") false (SUnq (S "a*3/4>.#")); mkSAttr false (S "f") false (SUnq (S "g(1)"));
                     mkSAttr false (S "s") true (SQuo true (S "a \' ] (c)")); mkSAttr false (S "t") false (SBrace (S " x{y} "))];
-              PClass (S "z")] None false in
+              PClass 1 (S "z")] None false in
   selem_ok e /\ jsx_ok false e /\
-  elem_text e = S "a#x.y[!p. q= r=a*3/4>.# f=g(1) s.='a \' ] (c)' t={ x{y} }].z" /\
+  elem_text e = S "a#x.y[!p. q= r=a*3/4>.# f=g(1) s.='a \' ] (c)' t={ x{y} }]..z" /\
   written_mentions e =
     [mkAAttr (Some (S "id")) (Some [VStr (S "x")]) VRaw false false false;
      mkAAttr (Some (S "class")) (Some [VStr (S "y")]) VRaw false false false;
@@ -329,7 +330,7 @@ Example C03_text_nonvacuous :
      mkAAttr (Some (S "f")) (Some [VStr (S "g(1)")]) VRaw false false false;
      mkAAttr (Some (S "s")) (Some [VStr (S "a ' ] (c)")]) VSingle true false false;
      mkAAttr (Some (S "t")) (Some [VStr (S " x{y} ")]) VExpr false false false;
-     mkAAttr (Some (S "class")) (Some [VStr (S "z")]) VRaw false false false].
+     mkAAttr (Some (S "class")) (Some [VStr (S "z")]) VRaw false false true].
 Proof.
   cbv zeta. split; [|split; [left; reflexivity|split; vm_compute; reflexivity]].
   split; [split; [discriminate|repeat constructor]|]. split; [|exact I]. repeat constructor; try discriminate.
@@ -337,9 +338,9 @@ Qed.
 
 (* ... and of the statement theorem: a.x>b[c=1]{t>u}+d#e/ satisfies its hypothesis *)
 Example C03_statement_nonvacuous :
-  let xs := [(mkSElem (S "a") [PClass (S "x")] None false, SChild);
+  let xs := [(mkSElem (S "a") [PClass 0 (S "x")] None false, SChild);
              (mkSElem (S "b") [PSet [mkSAttr false (S "c") false (SUnq (S "1"))]] (Some (S "t>u")) false, SSibling);
-             (mkSElem (S "d") [PId (S "e")] None true, SSibling)] in
+             (mkSElem (S "d") [PId 0 (S "e")] None true, SSibling)] in
   let cfg := mkMConfig (S "html") [(S "a", S "a[href]")] [] WNone None None false None [] false false in
   Forall (fun x => selem_ok (fst x) /\ jsx_ok false (fst x)) xs /\ stmt_text xs = S "a.x>b[c=1]{t>u}+d#e/" /\
   Forall (fun x => plain_name cfg (fst x)) (tl xs).
@@ -388,9 +389,9 @@ Example C03_statement_expand_nonvacuous :
   let x := mkX (mkMConfig (S "html") [] [] WNone None None false None [] false false)
                (mkOconfig (mkOfmt [] [] []) [] [] (S "double") false false [] [] 0 false [] (S "html") [] false [] [] []
                           false None None) in
-  let xs := [(mkSElem (S "a") [PClass (S "x")] None false, SChild);
+  let xs := [(mkSElem (S "a") [PClass 0 (S "x")] None false, SChild);
              (mkSElem (S "b") [PSet [mkSAttr false (S "c") false (SUnq (S "1"))]] (Some (S "t>u")) false, SSibling);
-             (mkSElem (S "d") [PId (S "e")] None true, SSibling)] in
+             (mkSElem (S "d") [PId 0 (S "e")] None true, SSibling)] in
   Forall (fun p => selem_ok (fst p) /\ jsx_ok false (fst p) /\ plain_name (xc_m x) (fst p)) xs /\
   Forall (fun p => elem_out_ok (xc_m x) (xc_o x) (fst p)) xs /\
   expand_markup_str x (stmt_text xs) = Ok (S "<a class=""x""><b c=""1"">t>u</b><d id=""e""></a>").
@@ -400,11 +401,11 @@ Proof.
   - repeat constructor.
 Qed.
 
-(* non-vacuity of the group corollary: `(a.x>b[c=1])*2+d#e` as tokens satisfies [gflat], so C01_parse_groups applies *)
+(* non-vacuity of the group corollary: `(a.x>b[c=1])*2+d##e` as tokens satisfies [gflat], so C01_parse_groups applies *)
 Example C03_group_nonvacuous :
-  let a := mkSElem (S "a") [PClass (S "x")] None false in
+  let a := mkSElem (S "a") [PClass 0 (S "x")] None false in
   let b := mkSElem (S "b") [PSet [mkSAttr false (S "c") false (SUnq (S "1"))]] None false in
-  let d := mkSElem (S "d") [PId (S "e")] None false in
+  let d := mkSElem (S "d") [PId 1 (S "e")] None false in
   let br o p := mkTok (TBracket o BGroup) p (p + 1) in
   let op o p := mkTok (TOperator o) p (p + 1) in
   let rp := mkTok (TRepeater 2 0 false) 13 15 in
